@@ -247,3 +247,27 @@ def c20(c):
         exhaustive=False,
         exhaustive_subspaces=["all bit patterns of 8- and 16-bit types for the opaque round trip and as static_cast sources (sub-sampled above 3000 values per pair)"],
         assumptions=["model backend ILP32 (quick) plus NARROW and WIDE (thorough)"]))
+
+
+# --------------------------------------------------------------------- C04
+@plan("C04")
+def c04(c):
+    units, runs = [], []
+    for n in ["ilp32", "ilp32f", "wide", "host"]:
+        nm = "c04_" + n
+        units.append(dict(name=nm, srcs=[D + "c04_ptrconv.cpp"], build="asan0", defs=EXC + ["CFG=vsbx_" + n]))
+        runs += sliced(nm, 2 if not c.thorough else 4)
+    return dict(units=units, runs=runs, evidence=dict(
+        level="exploration",
+        rule="case = (live-instance configuration, instance, pointer-carrying position, offset). 1..8 model-backend instances are created and "
+             "destroyed in PRNG order (so the registry order varies); for every live instance, boundary and random offsets go through 18 "
+             "to-application positions (cell, array element, whole array, struct field, whole struct, nested struct, const char*, invoke result, "
+             "callback argument, pointer-to-pointer, copy_and_verify_address, copy_and_verify of a struct pointer, by-value struct result, "
+             "reinterpret cast of a sandbox-resident pointer, opaque) and 18 to-sandbox positions (stores, whole array/struct stores, invoke "
+             "arguments as tainted/volatile/opaque, callback result, the three free_in_sandbox forms, by-value struct argument, UNSAFE_sandboxed, "
+             "assign_raw_pointer); oracle = base of the owning instance + offset, guest side observed in raw memory / guest event log / backend "
+             "free log; offset 0 <-> null on every path. Per round one instance gets ALL offsets 1..65535 through cell load/store and the "
+             "context path. MASK and FINDER translation styles, ILP32 / WIDE / HOST ABIs.",
+        exhaustive=False,
+        exhaustive_subspaces=["all 65535 non-null offsets of the 64 KiB region through load-cell, store-cell and UNSAFE_sandboxed, for one instance per round"],
+        assumptions=["offset 0 is the null representation (the first byte of the region is never handed out as an object)"]))
